@@ -269,6 +269,12 @@ Inductive exec_kind : Type := KSend | KRecv | KStmtTimeout.
 Definition reason_of (k : exec_kind) : reason :=
   match k with KSend => MessageSendFailed | KRecv => MessageReceiveFailed | KStmtTimeout => StatementTimeout end.
 
+(** How the out-of-band exchange ended, as seen by pgcat. *)
+Inductive oob_result : Type :=
+| OobOk              (* ParseComplete, ReadyForQuery *)
+| OobServerError     (* ErrorResponse, ReadyForQuery: the server REJECTED the statement *)
+| OobConnFail.       (* write or read on the server socket failed *)
+
 Inductive op : Type :=
 | Get (req : option role) (shard : option nat) (order : list addr) (outs : addr -> outcome) (tc bc : addr -> Z)
 | ExecFail (a : addr) (k : exec_kind) (now : Z) (client_gone : bool)
@@ -276,6 +282,14 @@ Inductive op : Type :=
        client that sent the statement has closed or reset its socket meanwhile.  client.rs:2178,2195
        call [pool.ban] BEFORE the error is written to the client, so the ban does not depend on it
        (c07_exec_fail_independent_of_client). *)
+| OobPrepare (a : addr) (r : oob_result) (now : Z)
+    (* pgcat's OWN exchange with a checked-out server: Parse (/ Close) + Sync sent by
+       Server::register_prepared_statement when a client Binds or Describes a cached named statement
+       on a server connection that lacks it (prepared_statements_cache_size > 0; client.rs:1838-1857,
+       1879-1892, server.rs register_prepared_statement).  The decision about a ban is taken on the
+       error VALUE: [Error::PreparedStatementError] = the server answered the Parse with an
+       ErrorResponse (the statement is bad, the server is fine): no ban; any other error = the
+       connection failed: [ban MessageSendFailed]. *)
 | AdminBan_ (h : nat) (d : Z) (now : Z)
 | AdminUnban (h : nat).
 
@@ -285,6 +299,11 @@ Definition step (c : cfg) (bl : banlist) (o : op) : banlist :=
   match o with
   | Get req shard order outs tc bc => snd (get c req shard order outs tc bc bl)
   | ExecFail a k now _ => if in_servers c a then ban a (reason_of k) now bl else bl
+  | OobPrepare a r now =>
+      match r with
+      | OobConnFail => if in_servers c a then ban a MessageSendFailed now bl else bl
+      | OobOk | OobServerError => bl
+      end
   | AdminBan_ h d now => admin_ban c h d now bl
   | AdminUnban h => admin_unban c h bl
   end.
